@@ -31,15 +31,52 @@ prop('C19', level='proof',
      not_decided='that every reachable state of a *compiled* program satisfies the static typing WF assumed by the step contracts (compiler side, see C03)',
      trusted=['the static typing (fs, pend, isroot ghost arrays) of the executed program exists - established for compiler output only per mechanism (C03)'])
 
-HOOK_COMMITS = []
+
+VM_TRUST = ['the static typing (ghost arrays fs/pend/isroot) of the executed program exists; for compiler output it is established per mechanism only (C03 compiler side)']
+DBG_TRUST = ['N12 at-use hooks: "every listed site is a breakpoint instruction of the loaded program" and "every enabled location is a key of potential_breaks whose site list is valid memory" are universal preconditions over the immutable program tables (C08 postcondition TBL), instantiated by assumption at the element read',
+             'site lists are modelled as slices of one ghost arena object (they are never written by the VM)']
+
+prop('C20', level='proof',
+     claim='Unbounded proof on the real VM::executeSingle that ADD_CONST is defined for all operands (CBMC signed-overflow/conversion obligations on the real expression), yields max(x+c,0) whenever that fits the word and some natural number otherwise, and that every opcode keeps all data words in [0, INT_MAX] (ghost word index).',
+     note='Trusted: container model T1-T3, CBMC; CONST operands >= 0 is part of the assumed static typing; literal conversion in the compiler (strToInt) is decided by the gen.cpp groups when present.',
+     explanation=STEP_NOTE + 'C20: NAT_G (data[g_g] >= 0 for the unconstrained ghost index g_g) is an ensures clause of all 12 step contracts; ADD_CONST has the functional clause and CBMC\'s own overflow obligations on the real 64-bit computation.',
+     not_decided='compile-time literal range checks are covered only by the compiler-side groups', trusted=VM_TRUST)
+
+prop('C03', level='proof',
+     claim='VM side (complete): type-soundness theorem of the real step function - for every program with a static typing and every state satisfying the dynamic invariant, each step keeps all accesses to data/code/stack inside their arrays (CBMC pointer/bounds obligations + the container model\'s index assertions) and re-establishes the invariant. Compiler side: per-mechanism contracts on gen.cpp where built.',
+     note='Trusted: container model, CBMC. Not machine-checked: that a typing exists for every accepted source (whole-traversal invariant of the code generator); the induction over steps.',
+     explanation=STEP_NOTE + 'C03 = WF(ip) & Inv => memory safety & Inv\' for every opcode; VM::execute is verified against the general step contract (callee replaced).',
+     not_decided='existence of the static typing for every accepted source', trusted=VM_TRUST)
+
+prop('C01', level='proof',
+     claim='Half (a) of C01: the 12 step contracts ARE the reference small-step semantics of the bytecode (zeroed frames, copy/constant, x+c, truncated x-c, jumps, call-by-value with fresh zeroed locals, result copied to the caller\'s target, HALT stops) and are proved on the real VM::executeSingle without bound. Half (b) (lowering schemas of gen.cpp) per function where built; the simulation argument joining the halves is not machine-checked.',
+     note='Trusted: container model, CBMC. Macros, sugar, includes and the step-budget clause are not decided.',
+     explanation=STEP_NOTE + 'C01(a): functional ensures clauses (new ip, written word, untouched words via the assigns clause, new activation record) per opcode.',
+     not_decided='lowering correctness as a whole (simulation), macros, includes', trusted=VM_TRUST)
+
+prop('C05', level='proof',
+     claim='The step never reads stepping/enabled state except for its return value and break opcodes only advance ip (step contracts, assigns clauses); the debugger mutators change nothing but the enabled set and the op field of breakpoint sites, and only within {POTENTIAL_BREAK, BREAK} (contracts of setBreakPoint/clearBreakpoints/reset/setSteppingMode with ghost code index); non-interference over whole histories follows by induction over API calls (not machine-checked).',
+     note='Trusted: container model incl. loop-free map/set lookups, N12 at-use hooks over the immutable tables, CBMC.',
+     explanation=STEP_NOTE + 'Debugger functions are extracted with normalisations N1/N2/N5/N6/N11/N12 and enforced against contracts in contracts/vm_dbg.c; loops closed by loop contracts.',
+     not_decided='induction over API histories; getActivationVariables', trusted=VM_TRUST + DBG_TRUST)
+
+prop('C06', level='proof',
+     claim='executeSingle reports a stop exactly for BREAK, HALT, or POTENTIAL_BREAK while stepping (return-value clauses); execute stops exactly at such a stop (loop contract, callee replaced; partial correctness); getCurrentBreak returns the table entry of ip-1 or none, and none at ip=0; setBreakPoint succeeds exactly for listed locations, switches every site of the line and maintains the enabled set; clearBreakpoints/reset empty it.',
+     note='Trusted: container model, N12 hooks, CBMC. "BREAK <=> site of an enabled line" (I5) across histories is the meta-induction over the mutator contracts.',
+     explanation=STEP_NOTE + 'Plus contracts of execute, getCurrentBreak, setBreakPoint, clearBreakpoints, reset, setSteppingMode, isDone, accessors.',
+     not_decided='termination of execute; whole-history statement', trusted=VM_TRUST + DBG_TRUST)
+
+prop('C17', level='proof',
+     claim='reset() establishes the abstract state of a fresh machine (stepping off, ip 0, no data, no activations, nothing enabled, code changed only at site ops) with clearBreakpoints replaced by its contract; HALT has an empty assigns clause and returns true; execute from a halted state assigns nothing (conditional assigns clause); getCurrentBreak at ip 0 is none.',
+     note='Trusted: container model, CBMC. "Every later history behaves as on the fresh machine" = equal abstract states + functional contracts (meta-argument). The constructor is not under contract (deep copy of Program is library code).',
+     explanation=STEP_NOTE + 'Groups: step_HALT (empty assigns), execute (conditional assigns), dbg_reset, dbg_clearBreakpoints, dbg_isDone, dbg_getCurrentBreak.',
+     not_decided='constructor; completeness of the site restore in clearBreakpoints is in the thorough tier', trusted=VM_TRUST + DBG_TRUST)
+
+HOOK_COMMITS = ['019397c']
 
 NOT_APPLICABLE = {
- 'C01': 'not yet built in this revision (planned: DESIGN.md section 5)',
  'C02': 'not yet built in this revision (planned: DESIGN.md section 5)',
- 'C03': 'not yet built in this revision (planned: DESIGN.md section 5)',
  'C04': 'not yet built in this revision (planned: DESIGN.md section 5)',
- 'C05': 'not yet built in this revision (planned: DESIGN.md section 5)',
- 'C06': 'not yet built in this revision (planned: DESIGN.md section 5)',
  'C07': 'not yet built in this revision (planned: DESIGN.md section 5)',
  'C08': 'not yet built in this revision (planned: DESIGN.md section 5)',
  'C09': 'match relation is delegated to LRParser<Accumulation,Token> (class template, std::function actions, lambdas) and selection/splicing live in closures inside apply_macros; none of it passes the CBMC C++ front end even after normalisation, and a hand-lifted copy would be a model (different technique family)',
@@ -50,8 +87,5 @@ NOT_APPLICABLE = {
  'C14': 'the oracle is the regular-expression semantics of lexer.l against flex generated DFA tables; a contract can at most bound table indices, equivalence needs an independent regex construction (a model)',
  'C15': 'not yet built in this revision (planned: DESIGN.md section 5)',
  'C16': 'not yet built in this revision (planned: DESIGN.md section 5)',
- 'C17': 'not yet built in this revision (planned: DESIGN.md section 5)',
  'C18': 'not yet built in this revision (planned: DESIGN.md section 5)',
- 'C20': 'not yet built in this revision (planned: DESIGN.md section 5)',
 }
-prop('C06', level='proof', claim='wip', note='wip', explanation='wip')
